@@ -101,7 +101,11 @@ impl MultiPeerBackend for SubSocketBackend {
         crate::verif_hooks::yield_point("sub.peer_connected.after_snapshot").await;
 
         for message in subs_msgs {
-            send_queue.send(Message::Message(message)).await.unwrap();
+            if send_queue.send(Message::Message(message)).await.is_err() {
+                // The connection failed before the peer could be told the
+                // subscriptions: do not register it.
+                return;
+            }
         }
         #[cfg(feature = "verif-hooks")]
         crate::verif_hooks::yield_point("sub.peer_connected.after_resubscribe").await;
@@ -175,15 +179,24 @@ impl SubSocket {
         let message: ZmqMessage = SubSocketBackend::create_subs_message(subscription, msg_type);
         let mut iter = self.backend.peers.begin_async().await;
 
+        // A failure on one peer's connection must not keep the others from being updated.
+        let mut first_error = None;
         while let Some(mut peer) = iter {
-            peer.send_queue
+            if let Err(e) = peer
+                .send_queue
                 .send(Message::Message(message.clone()))
-                .await?;
+                .await
+            {
+                first_error.get_or_insert(e);
+            }
             #[cfg(feature = "verif-hooks")]
             crate::verif_hooks::yield_point("sub.process_subs.between_peers").await;
             iter = peer.next_async().await;
         }
-        Ok(())
+        match first_error {
+            Some(e) => Err(e.into()),
+            None => Ok(()),
+        }
     }
 }
 
